@@ -87,7 +87,8 @@ func (zset *ZSet) Add(nms []*ZSetMember, opt ZAddOption) int {
 		}
 		isAdded := false
 		for n, tm := range zset.members {
-			if nm.Score < tm.Score {
+			// Members with the same score are ordered lexicographically, as in Redis.
+			if nm.Score < tm.Score || (nm.Score == tm.Score && nm.Member < tm.Member) {
 				zset.members = append(zset.members[:n+1], zset.members[n:]...)
 				zset.members[n] = nm
 				isAdded = true
